@@ -173,7 +173,8 @@ def matmul_dense_mismatch(ob, d, k, nb):
         't_on_tensor', 'sum_out_of_range', 'sum_list_out_of_range', 'sum_list_high_first', 'sum_ttm_out_of_range', 'sum_negative', 'sum_bad_type', 'mprod_on_ttm', 'mprod_size', 'mprod_bad_args', 'mprod_mode_range',
         'qtt_not_list', 'qtt_shape', 'getitem_too_few', 'getitem_too_many', 'getitem_int_range', 'getitem_float', 'getitem_bool', 'mul_multi_element', 'div_multi_element', 'apply_mask_extra_columns', 'sum_duplicate_axes', 'sum_bool_axis', 'getitem_two_ellipsis',
         'getitem_int_on_order2', 'getitem_slice_on_order2', 'getitem_ttm_ellipsis', 'getitem_ttm_mixed', 'set_core_index', 'set_core_rank',
-        'fast_matvec_not_tt', 'fast_matvec_kinds', 'fast_matvec_shape', 'fast_matvec_order', 'mprod_list_len', 'getitem_ttm_odd', 'to_qtt_not_power', 'to_qtt_tensor_not_power', 'to_qtt_ttm_rect', 'ctor_bad_source', 'getitem_str')],
+        'fast_matvec_not_tt', 'fast_matvec_kinds', 'fast_matvec_shape', 'fast_matvec_order', 'mprod_list_len', 'getitem_ttm_odd', 'to_qtt_not_power', 'to_qtt_tensor_not_power', 'to_qtt_ttm_rect', 'ctor_bad_source', 'getitem_str',
+        'getitem_ttm_single_int', 'getitem_ttm_single_slice', 'getitem_bare_bool', 'ctor_shape_count', 'ctor_shape_count_numpy', 'ctor_shape_count_ttm', 'round_rmax_zero', 'round_rmax_list_zero', 'round_rmax_negative')],
           expect='raise', replay='misuse')
 def method_misuse(ob, case):
     ex = ob.ex
@@ -233,6 +234,24 @@ def method_misuse(ob, case):
         ob.ret = ex.optable.subscript(ex, ob.tt('x', 2), 'a')
     elif case == 'getitem_bool':
         ob.ret = ex.optable.subscript(ex, ob.tt('x', 2), (True, 0, 0))
+    elif case == 'getitem_ttm_single_int':
+        # an operator entry needs a row and a column index: one index is the wrong number of indices
+        ob.ret = ex.optable.subscript(ex, ob.tt('A', 1, ttm=True), 0)
+    elif case == 'getitem_ttm_single_slice':
+        ob.ret = ex.optable.subscript(ex, ob.tt('A', 1, ttm=True), slice(0, 1))
+    elif case == 'getitem_bare_bool':
+        ob.ret = ex.optable.subscript(ex, ob.tt('x', 1), True)
+    elif case in ('round_rmax_zero', 'round_rmax_list_zero', 'round_rmax_negative'):
+        # a TT rank is at least 1: a maximum rank below 1 is not a valid rank bound
+        x = ob.tt('x', 2)
+        if case == 'round_rmax_zero':
+            rm = 0
+        elif case == 'round_rmax_negative':
+            rm = z3.Int('rm')
+            ex.assume(rm < 1)
+        else:
+            rm = [1, 0, 1]
+        ob.ret = ex.call(ex.getattr(x, 'round'), [], {'eps': 1e-10, 'rmax': rm})
     elif case in ('mul_multi_element', 'div_multi_element'):
         # a tensor with more than one element is not a scalar (its length may happen to broadcast against a rank)
         x = ob.tt('x', 2)
@@ -305,6 +324,14 @@ def method_misuse(ob, case):
         ob.ret = call(x, 'to_qtt')
     elif case == 'ctor_bad_source':
         ob.ret = ex.instantiate(H.tt_class(ex), [3.5], {})
+    elif case in ('ctor_shape_count', 'ctor_shape_count_numpy', 'ctor_shape_count_ttm'):
+        # the prescribed shape does not account for all entries of the dense source (a stray trailing dimension: an integer multiple
+        # of the element count)
+        lib = 'numpy' if case == 'ctor_shape_count_numpy' else 'torch'
+        if case == 'ctor_shape_count_ttm':
+            ob.ret = ex.instantiate(H.tt_class(ex), [T.atom_tensor('D', [2, 3, 2, 3, 2], lib=lib)], {'shape': [(2, 2), (3, 3)]})
+        else:
+            ob.ret = ex.instantiate(H.tt_class(ex), [T.atom_tensor('D', [2, 3, 4, 2], lib=lib)], {'shape': [2, 3, 4]})
     else:
         raise ValueError(case)
 
@@ -314,7 +341,8 @@ def method_misuse(ob, case):
         'kron_kinds', 'kron_bad', 'dot_not_tt', 'dot_ttm', 'dot_size', 'dot_order', 'dot_axis_order', 'dot_axis_size', 'dot_axis_size1', 'dot_axis_range', 'reshape_negative', 'randn_len_R', 'randn_end_R', 'meshgrid_not_1d', 'bilinear_types', 'bilinear_kinds', 'bilinear_shape',
         'cat_ttm', 'cat_size_before', 'cat_size_after', 'cat_size_both', 'cat_order', 'pad_too_many', 'diag_not_tt', 'permute_not_tt', 'permute_len', 'permute_dup',
         'permute_range', 'reshape_count', 'reshape_ttm_rows', 'reshape_ttm_cols', 'reshape_ttm_swap', 'reshape_ttm_second', 'save_not_tt', 'random_bad_R', 'random_len_R', 'zeros_not_list', 'ones_not_list', 'amen_mv_types', 'amen_mv_kinds', 'amen_mv_shape',
-        'amen_solve_types', 'amen_solve_kinds', 'amen_solve_square', 'amen_solve_shape', 'riemann_kinds',
+        'amen_solve_types', 'amen_solve_kinds', 'amen_solve_square', 'amen_solve_shape', 'riemann_kinds', 'riemann_order', 'riemann_order_ttm', 'riemann_size',
+        'random_rank_zero', 'random_list_rank_zero', 'randn_rank_zero',
         'amen_mm_types', 'amen_mm_kinds', 'amen_mm_shape', 'amen_mm_order', 'cat_dim_range', 'cat_dim_negative', 'cat_single_dim_range', 'cat_single_ttm', 'cat_single_dim_type', 'hadamard_types', 'hadamard_kinds', 'hadamard_order')],
           expect='raise', replay='misuse')
 def function_misuse(ob, case):
@@ -514,6 +542,27 @@ def function_misuse(ob, case):
             ob.ret = ex.call(f, [x, ob.tt('A', 2, ttm=True, N=x.N_, M=x.N_)])
         else:
             ob.ret = ex.call(f, [x, ob.tt('y', 3, N=x.N_ + [z3.Int('n_extra')])])
+    elif case in ('riemann_order', 'riemann_order_ttm', 'riemann_size'):
+        # the projected tensor must live in the space of the base point: same order and mode sizes
+        f = ex.module('torchtt.manifold').env['riemannian_projection']
+        ttm = case == 'riemann_order_ttm'
+        x = ob.tt('x', 2, ttm=ttm)
+        if case == 'riemann_size':
+            n = z3.Int('n_other')
+            ex.assume(z3.And(n >= 1, n != x.N_[1]))
+            z = ob.tt('z', 2, N=[x.N_[0], n])
+        elif ttm:
+            z = ob.tt('z', 3, ttm=True, N=x.N_ + [z3.Int('n_extra')], M=x.M_ + [z3.Int('m_extra')])
+        else:
+            z = ob.tt('z', 3, N=x.N_ + [z3.Int('n_extra')])
+        ob.ret = ex.call(f, [x, z])
+    elif case in ('random_rank_zero', 'random_list_rank_zero', 'randn_rank_zero'):
+        if case == 'random_rank_zero':
+            ob.ret = ex.call(E('random'), [[2, 3], 0])
+        elif case == 'random_list_rank_zero':
+            ob.ret = ex.call(E('random'), [[2, 3, 2], [1, 2, 0, 1]])
+        else:
+            ob.ret = ex.call(E('randn'), [[2, 3, 2], [1, 0, 2, 1]])
     elif case == 'riemann_kinds':
         f = ex.module('torchtt.manifold').env['riemannian_projection']
         x = ob.tt('x', 2)
